@@ -42,6 +42,15 @@ func main() {
 		cmdFunc(os.Args[2:])
 	case "check":
 		os.Exit(cmdCheck(os.Args[2:]))
+	case "ssa":
+		w := load()
+		for _, k := range os.Args[2:] {
+			if f := w.Funcs[k]; f != nil {
+				f.WriteTo(os.Stdout)
+			} else {
+				fmt.Println("no function", k)
+			}
+		}
 	case "doctor":
 		os.Exit(cmdDoctor())
 	case "list":
